@@ -2,6 +2,7 @@
 """Prints the prompt handed to a fresh sub-agent that seeds a property-breaking change (development aid)."""
 import json,sys
 pid=sys.argv[1]; suffix=sys.argv[2] if len(sys.argv)>2 else ''
+avoid=sys.argv[3] if len(sys.argv)>3 else ''
 wt=f"/tmp/wt_{pid}{suffix}"
 p=[json.loads(l) for l in open('/verif/properties.jsonl') if json.loads(l)['id']==pid][0]
 print(f"""You are working in a scratch git worktree of the Rust project mbehr1/adlt (library + CLI for parsing, lifecycle-detecting, sorting, filtering and serving automotive DLT log files) at {wt}. Work ONLY inside {wt}: never touch or read /repo or /verif. There is no network: always pass --offline to cargo, and set CARGO_TARGET_DIR={wt}/target for every cargo command.
@@ -13,12 +14,12 @@ STATEMENT: {p['statement']}
 RANGE: {p['quantifier']['text']}
 (The relevant code is in: {', '.join(p['anchors']['files'])})
 
-YOUR TASK: produce ONE small change to the sources under src/ that BREAKS this property while (a) the crate still compiles without new warnings-as-errors and (b) the existing test suite still passes. The change should look like a plausible regression or refactoring slip a maintainer could make, and it must need something specific to manifest -- a particular interleaving, a fault at a particular point, a multi-step sequence of operations, an unusual input, or two cooperating sites that each look fine alone -- NOT something ordinary use would expose at once. Do not just insert a panic or an obviously artificial special case (no `if x == 12345`).
+YOUR TASK: produce ONE small change to the sources under src/ that BREAKS this property while (a) the crate still compiles without new warnings-as-errors and (b) the existing test suite still passes. The change should look like a plausible regression or refactoring slip a maintainer could make, and it must need something specific to manifest -- a particular interleaving, a fault at a particular point, a multi-step sequence of operations, an unusual input, or two cooperating sites that each look fine alone -- NOT something ordinary use would expose at once. Do not just insert a panic or an obviously artificial special case (no `if x == 12345`).""" + ((" Earlier exercises already covered these ideas, choose a different part of the behaviour: " + avoid) if avoid else '') + f"""
 
 Steps:
 1. Read the relevant code. Design the change.
 2. Write a demonstration: an integration test file tests/seed_demo.rs (using only the crate's public API, or the built binary) that PASSES on the unchanged code and FAILS with your change. Verify both.
-3. Verify the existing tests still pass WITH your change: run `cargo test --offline --lib` and `cargo test --offline --bins` and `cargo test --offline --test integration_bin` (known baseline issues you may ignore: bin_remote_invalidport always fails; bin_remote_ex002_open / bin_remote_ex002_stream are flaky). If an existing test fails because of your change, redesign the change.
+3. Verify the existing tests still pass WITH your change: run `cargo test --offline --lib` and `cargo test --offline --bins` and `timeout 900 cargo test --offline --test integration_bin -- --skip bin_remote_invalidport` (bin_remote_invalidport hangs in this sandbox: always skip it and always use the timeout; bin_remote_ex002_open / bin_remote_ex002_stream are flaky on the unchanged code and may be ignored). Never use `pkill`/`killall`: other adlt processes that are not yours run on this machine; if a test of yours leaves a server process behind, kill exactly that pid. If an existing test fails because of your change, redesign the change.
 4. Deliverables, in {wt}/seed/: `patch.diff` (output of `git diff -- src` with your change; must apply with `git apply` to the pristine tree), `seed_demo.rs` (copy of the demonstration), `notes.md` (which clause of the property breaks; what exactly is needed for it to manifest; the commands you ran and their results: suite with patch, demo with and without patch).
 5. Finally leave the worktree's tracked files pristine (`git checkout -- .`), remove tests/seed_demo.rs from tests/ (the copy stays in seed/), and delete {wt}/target to free disk space.
 
